@@ -547,4 +547,81 @@ def run (schemas : List Schema) : OState → List Cmd → OState × List Resp
 
 def OState.empty : OState := ⟨[], []⟩
 
+/-! ## which opset a translated function is exported under
+
+`Converter._set_default_opset`, `_find_onnx_opset`, `IRFunction.append_node` (first version of a domain wins,
+a different one later only warns) and the `opset_imports` computation of `OnnxFunction._to_model_proto` (for a
+function that calls no other script function).  Domain `''` is `enc "" = 1`. -/
+
+/-- what the body does, in order: a call `opsetX.Op(...)` of an opset object with (domain, version), or a
+construct the converter translates with `self.default_opset` (operators `-x`, `x + y`, constants, …) -/
+inductive Ev where
+  | call (d v : Nat)
+  | implicit
+  deriving Repr, DecidableEq, Inhabited
+
+inductive ConvErr where
+  /-- "Two distincts opset were used" -/
+  | twoOpsets
+  /-- "default_opset must be specified in script for functions that do not contain any use of an ONNX opset" -/
+  | noDefault
+  deriving Repr, DecidableEq, Inhabited
+
+structure ConvState where
+  /-- `Converter.default_opset_` -/
+  dflt : Option (Nat × Nat)
+  /-- `IRFunction.opset_imports`, in insertion order -/
+  imports : List (Nat × Nat)
+  /-- "Version conflict" warnings: (domain, existing, new) -/
+  conflicts : List (Nat × Nat × Nat)
+  deriving Repr, DecidableEq, Inhabited
+
+/-- `IRFunction.append_node` as far as `opset_imports` goes -/
+def appendNode (st : ConvState) (d v : Nat) : ConvState :=
+  match findTok d st.imports with
+  | none => { st with imports := st.imports ++ [(d, v)] }
+  | some v0 => if v0 == v then st else { st with conflicts := st.conflicts ++ [(d, v0, v)] }
+
+/-- `Converter._set_default_opset` -/
+def setDefault (st : ConvState) (d v : Nat) : Except ConvErr ConvState :=
+  if d != 1 then .ok st
+  else
+    match st.dflt with
+    | some (d0, v0) => if d != d0 || v != v0 then .error .twoOpsets else .ok st
+    | none => .ok { st with dflt := some (d, v) }
+
+def convStep (st : ConvState) : Ev → Except ConvErr ConvState
+  | .call d v =>
+    match setDefault st d v with
+    | .error e => .error e
+    | .ok st' => .ok (appendNode st' d v)
+  | .implicit =>
+    match st.dflt with
+    | none => .error .noDefault
+    | some (d0, v0) => .ok (appendNode st d0 v0)
+
+def convRun : ConvState → List Ev → Except ConvErr ConvState
+  | st, [] => .ok st
+  | st, e :: es =>
+    match convStep st e with
+    | .error err => .error err
+    | .ok st' => convRun st' es
+
+/-- `_find_onnx_opset`: the first opset of domain `''` called in the body -/
+def findOnnxOpset : List Ev → Option (Nat × Nat)
+  | [] => none
+  | .call d v :: es => if d == 1 then some (d, v) else findOnnxOpset es
+  | .implicit :: es => findOnnxOpset es
+
+/-- `script(default_opset=declared)` on a function whose body is `evs` -/
+def convert (declared : Option (Nat × Nat)) (evs : List Ev) : Except ConvErr ConvState :=
+  convRun ⟨(match declared with | some x => some x | none => findOnnxOpset evs), [], []⟩ evs
+
+/-- `_to_model_proto(opset_version=opt)`: the option (else `onnx_opset_version()` = `current`) is used only
+when no `''` import was inferred from the body -/
+def exportImports (g : List (Nat × Nat)) (opt : Option Nat) (current : Nat) : List (Nat × Nat) :=
+  match findTok 1 g with
+  | some _ => g
+  | none => g ++ [(1, match opt with | some k => k | none => current)]
+
 end OV.C17
